@@ -112,8 +112,8 @@ section
 variable (P : Parser → Prop) (hadv : ∀ q, P q → P q.advance)
 include hadv
 
-theorem parseInstr_aok (p : Parser) (h : P p) : AOk P (parseInstr p) := by
-  have ha : P p.advance := hadv _ h
+/-- `parseInstr` only succeeds after consuming the keyword token: it is enough that `P` holds after that `advance` -/
+theorem parseInstr_aok' (p : Parser) (ha : P p.advance) : AOk P (parseInstr p) := by
   unfold parseInstr
   split
   · rename_i k _ _ _
@@ -125,8 +125,9 @@ theorem parseInstr_aok (p : Parser) (h : P p) : AOk P (parseInstr p) := by
       split <;> repeat aok_step
   · trivial
 
-theorem parseDirective_aok (p : Parser) (h : P p) : AOk P (parseDirective p) := by
-  have ha : P p.advance := hadv _ h
+theorem parseInstr_aok (p : Parser) (h : P p) : AOk P (parseInstr p) := parseInstr_aok' P hadv p (hadv _ h)
+
+theorem parseDirective_aok' (p : Parser) (ha : P p.advance) : AOk P (parseDirective p) := by
   have ha2 : P p.advance.advance := hadv _ ha
   unfold parseDirective
   dsimp only
@@ -159,16 +160,22 @@ theorem parseDirective_aok (p : Parser) (h : P p) : AOk P (parseDirective p) := 
               · trivial
   · trivial
 
-theorem parseNucleus_aok (p : Parser) (last : Option (Nat × Nat)) (h : P p) : AOk P (parseNucleus p last) := by
+theorem parseDirective_aok (p : Parser) (h : P p) : AOk P (parseDirective p) := parseDirective_aok' P hadv p (hadv _ h)
+
+/-- the nucleus parser consumes at least one token -/
+theorem parseNucleus_aok' (p : Parser) (last : Option (Nat × Nat)) (ha : P p.advance) : AOk P (parseNucleus p last) := by
   unfold parseNucleus
   split
   · apply AOk_bind
-    · exact parseDirective_aok P hadv p h
+    · exact parseDirective_aok' P hadv p ha
     · intro a p' hp'; exact hp'
   · apply AOk_bind
-    · exact parseInstr_aok P hadv p h
+    · exact parseInstr_aok' P hadv p ha
     · intro a p' hp'; exact hp'
   · trivial
+
+theorem parseNucleus_aok (p : Parser) (last : Option (Nat × Nat)) (h : P p) : AOk P (parseNucleus p last) :=
+  parseNucleus_aok' P hadv p last (hadv _ h)
 
 theorem skipColon_p (p : Parser) (h : P p) : P (skipColon p) := by
   unfold skipColon; split
